@@ -150,4 +150,27 @@ theorem stageApply_firstError {sch : Schema} {orc : Oracle} : ∀ (srcs : List S
         simp only [firstError, stageApply, hw]
         exact ih rs _ hrest
 
+/-- singular scalar/enum leaf: the leaves the rules attribute to the key are exactly what the stage's write puts
+    into an empty message -/
+theorem specParseLeaf_scalar_value {sch : Schema} {orc : Oracle} {p : Path} {f : Field} {vals : List Bytes} {l : Msg}
+    (hc : f.card = .single) (hk : ∀ r, f.kind ≠ .message r)
+    (h : specParseLeaf sch orc p f vals = some (.ok l)) :
+    ∃ w, leafParse sch orc f vals = .ok w ∧ applyWrite [] p w = l := by
+  unfold specParseLeaf at h
+  unfold leafParse
+  simp only [hc] at h ⊢
+  split
+  · rename_i t
+    simp only at h
+    cases hkk : f.kind with
+    | message r => exact absurd hkk (hk r)
+    | _ =>
+      simp only [hkk] at h ⊢
+      split at h <;> rename_i hp <;> simp only [hp] <;> simp at h
+      all_goals (subst h; refine ⟨_, rfl, ?_⟩; rename_i v; cases f.presence <;> cases v.isZero <;> simp [applyWrite, Msg.put, Msg.erase])
+  · rename_i hne
+    split at h
+    · rename_i t; exact absurd rfl (hne t)
+    · simp at h
+
 end GB.C04
